@@ -243,8 +243,9 @@ Lemma task_step_pcs : forall fl mx c k c' k', task_step fl mx c k = Some (c', k'
   (tpc_weight (k_pc k') < tpc_weight (k_pc k))%nat /\ task_finished k = false /\
   (task_finished k' = true <-> k_pc k = T4).
 Proof.
-  intros fl mx c k c' k' H. unfold task_step in H. unfold task_finished.
+  intros fl mx c k c' k' H. unfold task_step, fail_to in H. unfold task_finished.
   repeat break_match; try discriminate; inversion H; subst; simpl;
+    repeat match goal with |- context [if ?b then _ else _] => destruct b end; simpl;
     (split; [lia | split; [reflexivity | split; intros; congruence]]).
 Qed.
 
@@ -309,7 +310,7 @@ Definition pc_ok (n : nat) (cl : client) : Prop :=
   end.
 
 Definition res_ok (k : task) : Prop :=
-  match k_pc k with T4 | TEnd => k_res k <> None | _ => True end.
+  match k_pc k with T4 | TEnd | TDrop => k_res k <> None | _ => True end.
 
 Definition entries_ok (n : nat) (c : core) : Prop := Forall (fun fe : file * entry => (e_fut (snd fe) < n)%nat) (futs c).
 
@@ -402,8 +403,11 @@ Proof.
   - apply Forall_adel. exact H1.
 Qed.
 
-Lemma res_ok_new : forall ts k f d, Forall res_ok ts -> Forall res_ok (ts ++ [mkTask k f d T1 None]).
-Proof. intros ts k f d H. apply Forall_app. split; [exact H|]. apply Forall_cons; [exact I | apply Forall_nil]. Qed.
+Lemma res_ok_new : forall ts k f d p, p <> T4 -> p <> TEnd -> p <> TDrop -> Forall res_ok ts -> Forall res_ok (ts ++ [mkTask k f d p None]).
+Proof.
+  intros ts k f d p H4 HE HD H. apply Forall_app. split; [exact H|]. apply Forall_cons; [|apply Forall_nil].
+  unfold res_ok. simpl. destruct p; try exact I; congruence.
+Qed.
 
 Lemma client_step_J : forall fl mx s t cl s',
   J s -> nth_error (g_clients s) t = Some cl -> client_step fl mx s t cl = Some s' -> J s'.
@@ -427,7 +431,7 @@ Proof.
   pose proof (entries_ok_unload _ (op_file o) _ He) as Hun.
   repeat break_match; try discriminate; inversion H; subst; clear H; unfold J; simpl g_clients; simpl g_tasks; simpl g_core;
     rewrite ?app_length; simpl length; (split; [|split]).
-  all: try (first [ exact Ht | apply res_ok_new; exact Ht ]).
+  all: try (first [ exact Ht | apply res_ok_new; [discriminate | discriminate | discriminate | exact Ht] ]).
   all: try (apply Forall_set_nth;
        [ eapply Forall_mono_pc; [|exact Hc]; lia
        | first [ apply pc_ok_next
@@ -445,7 +449,7 @@ Qed.
 
 Lemma task_step_J_res : forall fl mx c k c' k', task_step fl mx c k = Some (c', k') -> res_ok k -> res_ok k'.
 Proof.
-  intros fl mx c k c' k' H Hr. unfold task_step in H. unfold res_ok in *.
+  intros fl mx c k c' k' H Hr. unfold task_step, fail_to in H. unfold res_ok in *.
   repeat break_match; try discriminate; inversion H; subst; simpl in *; auto; try discriminate.
 Qed.
 
@@ -460,6 +464,10 @@ Proof.
   - destruct (ufm fl mx (k_file k) (zlen (k_data k)) c) as [c1 [e|]] eqn:Eu; inversion H; subst;
       eapply ufm_entries; eauto.
   - inversion H; subst. exact He.
+  - destruct (fl_mkdir_exist_ok fl); [inversion H; subst; exact He|].
+    destruct (dir_exists (disk c)); inversion H; subst; exact He.
+  - inversion H; subst. exact He.
+  - inversion H; subst. unfold entries_ok. simpl. apply Forall_adel. exact He.
 Qed.
 
 Lemma nth_error_Forall : forall A (P : A -> Prop) l i x, Forall P l -> nth_error l i = Some x -> P x.
